@@ -53,6 +53,9 @@ Definition apply18 (st : interp) (o : term) : interp :=
     let st1 := fst (ev st (list_cmd [lit "proc"; n; []; lit "proc " ++ list_to_string [n] ++ lit " {} {return P}; return Q"])) in
     fst (ev st1 (list_to_string [n] ++ lit "; " ++ list_to_string [n]))
   else if is_op18 o "proc" then fst (ev st (list_cmd [lit "proc"; n; []; lit "return P"]))
+  (* the same body and the same parameter name, with and without a default value *)
+  else if is_op18 o "procd" then fst (ev st (list_cmd [lit "proc"; n; lit "{x D}"; lit "return $x"]))
+  else if is_op18 o "procn" then fst (ev st (list_cmd [lit "proc"; n; lit "x"; lit "return $x"]))
   else if is_op18 o "rename" then fst (ev st (list_cmd [lit "rename"; n; term_str (term_nth o 2)]))
   else fst (ev st (list_cmd [lit "rename"; n; []])).
 
@@ -75,7 +78,7 @@ Definition c18_model_obs (c : term) : term :=
                              (term_list c) (c18_init, [])))).
 
 (* ---- the oracle: an abstract name map and context liveness ---- *)
-Inductive kind := KNative (tag : Z) | KCtx (c : Z) | KProc.
+Inductive kind := KNative (tag : Z) | KCtx (c : Z) | KProc | KProcD | KProcN.
 Definition amap18 := list (str * kind).
 
 Definition a_unbind (m : amap18) (n : str) : amap18 := filter (fun kv => negb (str_eqb (fst kv) n)) m.
@@ -97,6 +100,8 @@ Definition spec_step (s : amap18 * list bool) (o : term) : amap18 * list bool :=
     else if is_op18 o "badproc" then m
     else if is_op18 o "selfdef" then a_bind m n KProc
     else if is_op18 o "proc" then a_bind m n KProc
+    else if is_op18 o "procd" then a_bind m n KProcD
+    else if is_op18 o "procn" then a_bind m n KProcN
     else if is_op18 o "rename" then
       match a_find m n with
       | Some k => match term_str (term_nth o 2) with
@@ -119,10 +124,12 @@ Definition spec_observe (s : amap18 * list bool) : term :=
       | Some (KNative t) => TList [TTag "Ok" [TStr (show_Z t)]; TStr (lit "native")]
       | Some (KCtx c) => TList [TTag "Ok" [TStr (show_Z (100 + c))]; TStr (lit "native")]
       | Some KProc => TList [TTag "Ok" [TStr (lit "P")]; TStr (lit "proc")]
+      | Some KProcD => TList [TTag "Ok" [TStr (lit "D")]; TStr (lit "proc")]
+      | Some KProcN => TList [TTag "Err" []; TStr (lit "proc")]
       | None => TList [TTag "Err" []; TStr (lit "none")]
       end) c18_names in
   let bound := sort_strs (filter (fun n => match a_find m n with Some _ => true | None => false end) c18_names) in
-  let procs := sort_strs (filter (fun n => match a_find m n with Some KProc => true | _ => false end) c18_names) in
+  let procs := sort_strs (filter (fun n => match a_find m n with Some KProc | Some KProcD | Some KProcN => true | _ => false end) c18_names) in
   TList [TList per_name; TStrs bound; TStrs procs; TList (map TBool dropped)].
 
 Definition c18_spec_ok (c obs : term) : bool :=
